@@ -179,6 +179,10 @@ func (bc *boundsCtx) obligation(e ast.Expr, base ast.Expr, need needLen) {
 		bc.r.OK(bc.rule, bc.f, construct, e.Pos(), how)
 		return
 	}
+	if how, ok := bc.byDecodeWidth(base, need); ok {
+		bc.r.OK(bc.rule, bc.f, construct, e.Pos(), how)
+		return
+	}
 	for _, t := range bc.extra {
 		if how, ok := t(bc, e, base, need); ok {
 			bc.r.ReviewedOK(bc.rule, bc.f, construct, e.Pos(), how)
